@@ -642,11 +642,20 @@ func (ndb *nodeDB) DeleteVersionsFrom(fromVersion int64) error {
 		fromVersion = legacyLatestVersion + 1
 	}
 
-	// Delete the nodes for new format
+	// Delete the nodes for new format. The keys are collected first: the batch may be
+	// flushed to the database while it fills up, and a backend such as MemDB cannot be
+	// written to while one of its iterators is still open.
+	var staleKeys [][]byte
 	if err = ndb.traverseRange(nodeKeyPrefixFormat.KeyInt64(fromVersion), nodeKeyPrefixFormat.KeyInt64(latest+1), func(k, _ []byte) error {
-		return ndb.batch.Delete(k)
+		staleKeys = append(staleKeys, append([]byte(nil), k...))
+		return nil
 	}); err != nil {
 		return err
+	}
+	for _, k := range staleKeys {
+		if err = ndb.batch.Delete(k); err != nil {
+			return err
+		}
 	}
 
 	// NOTICE: we don't touch fast node indexes here, because it'll be rebuilt later because of version mismatch.
